@@ -2,6 +2,7 @@ import QR.Proofs.Stream
 import QR.Proofs.SourceTieC06
 import QR.Proofs.Pinned
 import QR.Proofs.SourceTieC20
+import QR.Proofs.SourceTieA5
 /-
 C06 - the data codewords of every symbol form a conformant ISO bit stream.
 Model side: `Model.dataBits` mirrors util.create_data (headers through BitBuffer.put, QRData.write, terminator, bit padding,
@@ -89,6 +90,39 @@ theorem C06_source_create_data (version level : Nat) (segs : List Seg) :
     (∀ n, padBytes n = (List.range n).flatMap fun i => bitsBE (if Gen.Code.pad_first i then Gen.PAD0 else Gen.PAD1) 8) ∧
     Gen.Code.pad_names = ("PAD0", "PAD1") :=
   ⟨QR.SourceTie.dataBits_eq version level segs, QR.SourceTie.padBytes_eq, QR.SourceTie.createData_pieces.2.2.2⟩
+
+
+/-! ### Source tie, part 2 (T2 plugins `tools/t2_fragments/`): the hand-written Model equals the definitions translated from
+    /repo's current Python AST (`QR.Gen.Code`, regenerated on every run). Restated verbatim from `QR/Proofs/SourceTie*.lean`. -/
+section SourceTieT2
+open QR.Model QR.Gen.Code QR.SourceTieA
+
+theorem C06_source_mode_consts_src : const_MODE_NUMBER = Gen.MODE_NUMBER ∧ const_MODE_ALPHA_NUM = Gen.MODE_ALPHA_NUM ∧
+    const_MODE_8BIT_BYTE = Gen.MODE_8BIT_BYTE ∧ const_MODE_KANJI = Gen.MODE_KANJI :=
+  QR.SourceTieA.mode_consts_src
+
+theorem C06_source_length_in_bits_literals : length_in_bits_exception = "TypeError" ∧
+    length_in_bits_check = "check_version(version)" ∧ length_in_bits_table = "mode_sizes_for_version(version)" :=
+  QR.SourceTieA.length_in_bits_literals
+
+/-- **length_in_bits**: the translated mode test (`mode not in (MODE_NUMBER, MODE_ALPHA_NUM, MODE_8BIT_BYTE,
+    MODE_KANJI)` → TypeError), then `check_version(version)` (translated by T2 as `check_version_bad`), then the lookup
+    `mode_sizes_for_version(version)[mode]` with T2's `mode_size_class` choosing the dictionary. -/
+theorem C06_source_lengthInBits_src (mode version : Nat) :
+    lengthInBits mode version =
+      if length_in_bits_bad_mode mode then .error .typeError
+      else if check_version_bad (version : Int) then .error .valueError
+      else dictGet (match mode_size_class version with
+                    | 0 => Gen.MODE_SIZE_SMALL
+                    | 1 => Gen.MODE_SIZE_MEDIUM
+                    | _ => Gen.MODE_SIZE_LARGE) (length_in_bits_key mode) :=
+  QR.SourceTieA.lengthInBits_src mode version
+
+/-- `QRData.__len__` returns `len(self.data)` (the Model uses `s.data.length` for the character count) -/
+theorem C06_source_qrdata_len_src (n : Nat) : qrdata_len n = n :=
+  QR.SourceTieA.qrdata_len_src n
+
+end SourceTieT2
 
 /-- the Python functions this property's model mirrors have, in /repo's current working tree, exactly the normalised
     ASTs the model was written and validated against (fingerprints regenerated by T1 on every run) -/
